@@ -340,7 +340,7 @@ def _provenance(col, prog, crate, R):
         raise Anchor("no construction of TreapNode found")
     # a hand-written Clone that is verified to copy field by field hands on priorities that were drawn once, like the derive
     clone_ok = util.structural_clone_bodies(crate, util.need_adt(crate, "TreapNode"))
-    writers = [w for w in writers if w[0].key not in clone_ok]
+    writers = [w for w in writers if w[0].key not in clone_ok and not ((crate.impl_of(w[0]) or {}).get("derived") and str((crate.impl_of(w[0]) or {}).get("trait") or "").endswith("clone::Clone"))]   # (`#[derive(Clone)]` likewise; a derived Default would still be a writer)
     may = util.allowed_writers(crate, {R.new.name}, getattr(R, "helpers", []))
     if not any(w[0].key == R.new.key for w in writers) and any(w[0].name in may and w[3] == "aggregate" for w in writers):
         # the node is built by a private constructor helper that new forwards to: new is judged with it inlined
